@@ -11,6 +11,7 @@ import (
 	"runtime/debug"
 	"sort"
 	"strings"
+	"sync"
 	"sync/atomic"
 	"time"
 
@@ -35,6 +36,11 @@ type tally struct {
 	ac     *metrics.AtomicCollector
 	paused int32
 	c      map[string]*uint64
+	// shadow of everything sent to the bundled collector (pauses included), to
+	// judge AtomicCollector.Summary itself
+	mu  sync.Mutex
+	all map[string]uint64
+	g   map[string]uint64
 }
 
 var counterNames = []string{"log_entry_bytes_written", "log_entries_written", "log_appends", "log_entry_bytes_read",
@@ -43,7 +49,7 @@ var counterNames = []string{"log_entry_bytes_written", "log_entries_written", "l
 func newTally() *tally {
 	defs := wal.MetricDefinitions
 	defs.Counters = append(append([]metrics.Descriptor(nil), defs.Counters...), verifier.MetricDefinitions.Counters...)
-	t := &tally{ac: metrics.NewAtomicCollector(defs), c: map[string]*uint64{}}
+	t := &tally{ac: metrics.NewAtomicCollector(defs), c: map[string]*uint64{}, all: map[string]uint64{}, g: map[string]uint64{}}
 	for _, n := range counterNames {
 		t.c[n] = new(uint64)
 	}
@@ -51,15 +57,47 @@ func newTally() *tally {
 }
 
 func (t *tally) IncrementCounter(name string, delta uint64) {
+	t.mu.Lock() // one critical section: collectorDiff must never see one without the other
 	t.ac.IncrementCounter(name, delta)
+	t.all[name] += delta
+	t.mu.Unlock()
 	if atomic.LoadInt32(&t.paused) == 0 {
 		if p, ok := t.c[name]; ok {
 			atomic.AddUint64(p, delta)
 		}
 	}
 }
-func (t *tally) SetGauge(name string, val uint64) { t.ac.SetGauge(name, val) }
-func (t *tally) get(name string) uint64           { return atomic.LoadUint64(t.c[name]) }
+func (t *tally) SetGauge(name string, val uint64) {
+	t.mu.Lock()
+	t.ac.SetGauge(name, val)
+	t.g[name] = val
+	t.mu.Unlock()
+}
+
+// collectorDiff compares AtomicCollector.Summary with what was sent to it; call
+// only while no WAL call is in flight.
+func (t *tally) collectorDiff() string {
+	t.mu.Lock()
+	defer t.mu.Unlock()
+	sum := t.ac.Summary()
+	for n, v := range t.all {
+		if sum.Counters[n] != v {
+			return fmt.Sprintf("counter %s: Summary says %d, %d was added", n, sum.Counters[n], v)
+		}
+	}
+	for n, v := range sum.Counters {
+		if t.all[n] != v {
+			return fmt.Sprintf("counter %s: Summary says %d, %d was added", n, v, t.all[n])
+		}
+	}
+	for n, v := range t.g {
+		if sum.Gauges[n] != v {
+			return fmt.Sprintf("gauge %s: Summary says %d, last set to %d", n, sum.Gauges[n], v)
+		}
+	}
+	return ""
+}
+func (t *tally) get(name string) uint64 { return atomic.LoadUint64(t.c[name]) }
 func (t *tally) summary() string {
 	var s []string
 	for _, n := range counterNames {
@@ -867,6 +905,9 @@ func (r *walRun) run() string {
 			emit("ok")
 		case "M":
 			emit(r.t.summary())
+			if d := r.t.collectorDiff(); d != "" {
+				r.c.witness("C20", "atomic-collector-summary", "metrics.AtomicCollector: "+d, r.line)
+			}
 			for _, n := range counterNames {
 				if n == "segment_rotations" {
 					continue
